@@ -100,6 +100,11 @@ impl Write for ScriptedWriter {
         let mut limit = buf.len();
         if let Some((off, kind)) = self.fail {
             if self.recv.len() == off {
+                // a full sink (a slice, a bounded buffer) does not return an error: it accepts zero bytes,
+                // which write_all reports as ErrorKind::WriteZero
+                if kind == ErrorKind::WriteZero && !buf.is_empty() {
+                    return Ok(0);
+                }
                 return Err(Error::new(kind, "scripted failure"));
             }
             limit = limit.min(off.saturating_sub(self.recv.len()));
